@@ -36,17 +36,25 @@ META = dict(
     level_note="Trusted: Lean kernel, the correspondence harness, and the model's inputs: the clocks are inputs of the model "
                "(what Scope Time / Block Time show when the interpreter runs; their own behaviour is C07), threshold comparison "
                "is exact (units.compare_values compares Decimal(str(float)); harness uses dyadic / 0.1-grid values), the "
-               "correction 0.1 is modelled as the rational 1/10 (harness avoids durations with d-0.1 on a tick boundary in "
-               "the correspondence; the engine oracle accepts both outcomes there). 'Starts' = the node's `started` flag "
-               "(visitor passed the threshold); the run-log item's `start` time is the earlier 'Created' state (observed, "
-               "belongs to C15/C16). 'Wait started' = the tick in which the Wait began waiting (wait_start_time); measured "
-               "from the `started` flag one tick earlier the code gives d+Δ (d+2Δ when d-0.1 falls on a tick boundary and "
-               "float rounding goes the wrong way) — the oracle accepts either reading. 'Inside a block' is decided by the "
-               "global Block tag at the moment of evaluation (dynamic), as the code does. PARTIAL: the reachable-state "
-               "lower bound for Wait is proved for methods without Alarm / Call macro (C03_wait_lower_bound_all_methods is "
-               "kept visible, neither proved nor refuted); the window claimed for every tick interval is refuted "
+               "correction 0.1 is modelled as the rational 1/10 (the correspondence avoids durations with d-0.1 on a tick "
+               "boundary; the engine oracle accepts both outcomes there). FINDING (findings.d/C03.json, reproduced on the real "
+               "engine every run, fix proposed in fixes/C03-stale-command-completion.diff): the first clause at full strength "
+               "(C03_threshold_full) is FALSE — a UOD command line with a threshold in an Alarm body starts at once in later "
+               "invocations, because the completion of the previous invocation's command sets `completed` on the re-armed "
+               "node and _is_awaiting_threshold returns False for completed nodes (C03_threshold_counterexample, decided in "
+               "the kernel on the model); proved instead: C03_threshold_partial / threshold_honoured_tick, which carry the "
+               "explicit `completed` escape. 'Starts' = the node's `started` flag (visitor passed the threshold); the "
+               "run-log item's `start` time is the earlier 'Created' state (observed, belongs to C15/C16). RECORDED "
+               "INTERPRETATION: 'the Wait started' = the tick in which the Wait began waiting (wait_start_time, run-log state "
+               "Started, what the repository's tests measure): window [d, d+Δ] proved for Δ = 0.1 s. Measured from the Wait's "
+               "own `started` flag one tick earlier the successor starts ceil(d/Δ)Δ + Δ later (model) — outside the window "
+               "unless d is a multiple of Δ (C03_wait_window_from_own_start_counterexample) and d+2Δ on the real engine for "
+               "d >= 0.3 s (float rounding); the oracle accepts either reading. 'Inside a block' is decided by the global "
+               "Block tag at the moment of evaluation (dynamic), as the code does. PARTIAL: the reachable-state lower bound "
+               "for Wait is proved for methods without Alarm / Call macro (C03_wait_lower_bound_all_methods is kept visible, "
+               "neither proved nor refuted); the window for every tick interval is refuted "
                "(C03_wait_window_any_interval_counterexample: the correction is a constant 0.1 s) — outside the property's "
-               "quantifier (default interval). `Wait: d` with d < 0.1 s never completes (modelled; C02/C15 matter).",
+               "quantifier. `Wait: d` with d < 0.1 s never completes (modelled; C02/C15 matter).",
     technique="Lean 4 proof (guard lemmas over all micro-step branches, inductive invariants lifted through runGen/tick/"
               "Reachable) + differential correspondence + engine-level oracle",
 )
@@ -60,6 +68,8 @@ REQUIRED = [
     "OPM.C03.reachable_ok", "OPM.C03.reachable_wait_inv", "OPM.C03.wait_lower_bound_noReset",
     "OPM.C03.wait_window", "OPM.C03.wait_window_default_interval",
     "OPM.C03.C03_wait_window_any_interval_counterexample",
+    "OPM.C03.C03_threshold_partial", "OPM.C03.C03_threshold_counterexample",
+    "OPM.C03.C03_wait_window_from_own_start_counterexample", "OPM.C03.wait_window_from_own_start_on_grid",
 ]
 FEATURES = {"mark", "block", "watch", "alarm", "macro", "wait", "cmd", "thr", "base", "blank"}
 
@@ -155,6 +165,9 @@ HAND_CASES = [
     ("Base: min\n0.015625 Mark: a\nBase: h\n0.00048828125 Mark: b\nBase: s\n3 Mark: c", "0.125", 60, []),
     ("Base: s\nBlock: B\n    0.5 Mark: a\n    1 Mark: b\n    End block\n0.75 Mark: c", "0.125", 60, [(5, "Hold"), (9, "Unhold")]),
     ("Base: s\nWatch: T0 > 0\n    0.5 Mark: w\n    Wait: 0.375s\n    Mark: x\n2 Mark: m", "0.1", 60, []),
+    # witness of the recorded finding (findings.d/C03.json): from the second invocation on, `1.5 CmdC` starts 0.2 s
+    # into the Alarm body, because the 6-tick command of the previous invocation completes meanwhile
+    ("Base: s\nAlarm: T0 > 0\n    1.5 CmdC", "0.1", 60, []),
 ]
 
 
@@ -165,7 +178,7 @@ def hand_cases() -> list[dict]:
         for t, cmd in users:
             plan[t].append(["user", cmd])
         if "T0" in pcode:
-            plan[10].append(["tag", "T0", 1])
+            plan[0 if "Alarm" in pcode else 10].append(["tag", "T0", 1])
         out.append({"pcode": pcode, "dt": dt, "ticks": ticks, "plan": plan})
     return out
 
@@ -204,12 +217,12 @@ def run(ctx: Check) -> int:
                 "0.125 s (1/3), random Pause/Hold periods and condition-tag changes between ticks.")
     corpus = [c for c in load_corpus("C03") if "pcode" in c and "plan" in c]
     run_oracle(ctx, corpus + hand_cases())
-    a = gen_corr_cases(ctx, ctx.n(90, 2500), 8)
+    a = gen_corr_cases(ctx, ctx.n(150, 2500), 8)
     _stream(ctx, "interp-m3-thresholds", a, run_case, lambda ls: perturb_clocks(ls, Fraction(1, 8)))
-    b = gen_corr_cases(ctx, ctx.n(50, 1500), 10)
+    b = gen_corr_cases(ctx, ctx.n(80, 1500), 10)
     _stream(ctx, "interp-m3-default-interval", b, run_case_tenths, lambda ls: perturb_time(ls, 2))
     m3_stream(ctx, "interp-m3-malformed", ctx.n(25, 600), malformed=True)
-    run_oracle(ctx, gen_oracle_cases(ctx, ctx.n(250, 6000)))
+    run_oracle(ctx, gen_oracle_cases(ctx, ctx.n(500, 6000)))
     ctx.exhaustive = False
     ctx.assumptions = ["clock tags, condition tags and command completion are inputs of the interpreter model",
                        "thresholds / clocks are exactly representable decimals (dyadic or 0.1-grid values)",
